@@ -94,7 +94,8 @@ def space_b_block(clsid, ents, quick, restricted_log=None):
                     yield clsid, pl, mode, pbf
 
 
-EXTREME_LENGTHS = (255, 256, 4095, 4096, 32767, 32768, 65534, 65535)
+# incl. payloads that make class+id+length+payload an exact multiple of 256 bytes (252, 508, ...)
+EXTREME_LENGTHS = (251, 252, 253, 255, 256, 508, 764, 4092, 4095, 4096, 32764, 32767, 32768, 65531, 65532, 65534, 65535)
 EXTREME_IDS = (b"\x05\x01", b"\x01\x35", b"\x0a\x04", b"\x00\x00", b"\x21\x04")  # fixed, counted, var-by-size, unknown, LOG-STRING
 
 
